@@ -9,7 +9,7 @@ cp -r /repo/amaranth_soc $D/
 ( cd $D && patch -p1 --quiet -i /verif/seeded/$NAME/patch.diff )
 cd /verif
 for ID in "$@"; do
-  OUT=$(VERIF_EVIDENCE_DIR=$D/evidence VERIF_REPO=$D ./check $ID --tier quick 2>&1) && RC=0 || RC=$?
+  OUT=$(VERIF_EVIDENCE_DIR=$D/evidence VERIF_REPLAY_DIR=$D/replays VERIF_REPO=$D ./check $ID --tier quick 2>&1) && RC=0 || RC=$?
   V=$(echo "$OUT" | grep -c "^VIOLATION" || true)
   NF=$(echo "$OUT" | grep "^VIOLATION" | grep -vc "no-failing-input-found" || true)
   CL=$(echo "$OUT" | grep "refuted:" | sed 's/.*refuted: *//; s/@.*//; s/\[.*//' | sort -u | tr '\n' ',' | cut -c1-300)
